@@ -85,6 +85,11 @@ type Scenario struct {
 	// finished processing it - which can only be the panic. Only then do
 	// they go on (and fail, if their outcome says so): a fail-fast directive
 	// has recorded the panic first and must report it.
+	// Root-failure scenario (C20): one worker, nothing cancelled, and the only
+	// functions that fail are dependency-free tasks: the first of them in
+	// enqueue order fails first and ends the flow, so base-mode and
+	// modifier-mode code must return the error of the same task.
+	RootFail    bool  `json:"rootfail,omitempty"`
 	PFirst      int   `json:"pfirst,omitempty"`
 	PFirstUnits []int `json:"pfirstunits,omitempty"`
 }
